@@ -83,7 +83,16 @@ type signed interface {
 }
 
 // signature kinds; model encoding in props/C32.py must match
-var kinds = []string{"nosig", "disallowed", "allowed_badsig", "allowed_otherbody", "allowed_key_foreign_sig", "valid", "empty_sig_allowed_key", "garbage_key"}
+var kinds = []string{"nosig", "disallowed", "allowed_badsig", "allowed_otherbody", "allowed_key_foreign_sig", "valid", "empty_sig_allowed_key", "garbage_key",
+	// two-step sequences: a signature the server has already accepted is presented again
+	"replay_sig_other_body", "replay_sig_other_method"}
+
+// signature (over which body) of the last accepted request of the current / previous method
+type savedSig struct {
+	key, sign, body []byte
+}
+
+var lastValid, prevMethodValid *savedSig
 
 type result struct {
 	Server  string `json:"server"`
@@ -145,11 +154,25 @@ func applyKind(kind string, req reflect.Value, allowed, other *ecdsa.PrivateKey,
 	case "allowed_key_foreign_sig":
 		setSig(req, pubBytes(allowed), signBody(other, body))
 	case "valid":
-		setSig(req, pubBytes(allowed), signBody(allowed, body))
+		sg := signBody(allowed, body)
+		setSig(req, pubBytes(allowed), sg)
+		lastValid = &savedSig{pubBytes(allowed), sg, body}
 	case "empty_sig_allowed_key":
 		setSig(req, pubBytes(allowed), []byte{})
 	case "garbage_key":
 		setSig(req, []byte{1, 2, 3}, signBody(allowed, body))
+	case "replay_sig_other_body":
+		if lastValid != nil {
+			mutate()
+			setSig(req, lastValid.key, lastValid.sign)
+			after, _ := req.Interface().(signed).ReadSignedData(nil)
+			return string(after) != string(lastValid.body)
+		}
+	case "replay_sig_other_method":
+		if prevMethodValid != nil {
+			setSig(req, prevMethodValid.key, prevMethodValid.sign)
+			return string(body) != string(prevMethodValid.body)
+		}
 	}
 	return
 }
@@ -332,6 +355,7 @@ func callAll(server string, srv any, v *env, allowed, other *ecdsa.PrivateKey, e
 			mut  func(reflect.Value)
 		}
 		var jobs []job
+		prevMethodValid, lastValid = lastValid, nil
 		for _, kind := range kinds {
 			jobs = append(jobs, job{kind, nil})
 		}
